@@ -1,7 +1,7 @@
 SPECIFICATION Spec
 CONSTANTS
   Letters <- LettersMC
-  MaxLen = 4
+  MaxLen = 3
   PSteps = {1}
   PathAlg = "stack"
   Alias = "share"
